@@ -656,6 +656,8 @@ func c09NamedTypes(split bool) *Prog {
 		&Func{Name: "setFirst", Params: []string{"k", "xs"}, PTypes: []*Ty{TInt, SliceOf(TInt)}, Variadic: true, Results: []*Ty{TInt}, Body: []*S{
 			asg(&E{K: "index", Ty: TInt, X: v("xs", SliceOf(TInt)), I: lit(TInt, 0)}, v("k", TInt)), ret(lenOf(v("xs", SliceOf(TInt))))}},
 		// a function literal with another number of results, then results forwarded from a call
+		&Func{Name: "dropper", Params: []string{"n"}, PTypes: []*Ty{TInt}, Results: []*Ty{TInt}, Body: []*S{
+			dcl("k", lit(TInt, 42)), {K: "expr", NRes: 2, E: call("two", nil, 0, v("n", TInt))}, {K: "expr", NRes: 2, E: call("two", nil, 0, v("k", TInt))}, ret(v("k", TInt))}},
 		&Func{Name: "two", Params: []string{"a"}, PTypes: []*Ty{TInt}, Results: []*Ty{TInt, TInt}, Body: []*S{ret(v("a", TInt), bin("+", TInt, v("a", TInt), lit(TInt, 1)))}},
 		&Func{Name: "afterLit", Params: []string{"n"}, PTypes: []*Ty{TInt}, Results: []*Ty{TInt, TInt}, Body: []*S{
 			dcl("sq", &E{K: "funclit", Ty: FuncTy(&FuncSig{Params: []*Ty{TInt}, Results: []*Ty{TInt}}), Fn: "c09lit1", Lit: c09Lit1}),
@@ -686,8 +688,13 @@ func c09NamedTypes(split bool) *Prog {
 		pr(sS("setFirst"), &E{K: "call", Fn: "setFirst", Ty: TInt, NRes: 1, Args: []*E{lit(TInt, 9), v("sp", SliceOf(TInt))}, Spread: true}, &E{K: "index", Ty: TInt, X: v("sp", SliceOf(TInt)), I: lit(TInt, 0)}),
 		dcl("em", &E{K: "slicelit", Ty: SliceOf(TInt)}),
 		pr(sS("isnil"), &E{K: "call", Fn: "isnil", Ty: TBool, NRes: 1, Args: []*E{v("em", SliceOf(TInt))}, Spread: true}, &E{K: "call", Fn: "isnil", Ty: TBool, NRes: 1}),
+		// calls whose results (two, one) are dropped: statements of their own, before other statements of the function
+		{K: "expr", NRes: 2, E: call("two", nil, 0, lit(TInt, 1))},
+		{K: "expr", NRes: 1, E: call("blank2", nil, 0, lit(TInt, 1), lit(TInt, 2))},
+		{K: "expr", NRes: 2, E: call("afterLit", nil, 0, lit(TInt, 2))},
 		{K: "decl", Names: []string{"r1", "r2"}, Exprs: []*E{call("afterLit", nil, 2, lit(TInt, 3))}},
 		pr(sS("afterLit"), v("r1", TInt), v("r2", TInt)),
+		pr(sS("dropper"), call("dropper", TInt, 1, lit(TInt, 5))),
 	}
 	p.Funcs = append(p.Funcs, &Func{Name: "Main", Body: body})
 	p.Lits = append(p.Lits, c09Lit1)
